@@ -25,8 +25,9 @@ type Job struct {
 	Reach       []string // vacuity markers that must be reached by the family
 	NoValidate  bool     // observations are not natively comparable (map order, monitors)
 
-	prefix []PrefixStep
-	parent *Job
+	prefix      []PrefixStep
+	prefixFresh bool
+	parent      *Job
 }
 
 func (j *Job) String() string {
@@ -80,9 +81,11 @@ type JobResult struct {
 	SubJobs   []*Job
 	Wall      time.Duration
 	Asserts   int
+	Donated   int
 }
 
 type Worker struct {
+	pool    *Pool
 	id      int
 	w       *World
 	solver  *Solver
@@ -219,6 +222,7 @@ func (wk *Worker) runJob(job *Job) *JobResult {
 		ex.splitDepth = job.Split
 	} else {
 		ex.LoadPrefix(job.prefix)
+		ex.prefixFresh = job.prefixFresh
 	}
 	addViol := func(v Violation, emits []string) {
 		label := v.Label
@@ -320,6 +324,22 @@ func (wk *Worker) runJob(job *Job) *JobResult {
 			res.Inconc = append(res.Inconc, "max paths reached")
 			break
 		}
+		// work stealing: if workers are idle, give away the unexplored
+		// alternatives of the shallowest open decision
+		if wk.pool != nil && res.Paths%16 == 0 && wk.pool.idleWorkers() > 0 {
+			if ps := ex.Donate(); ps != nil {
+				var sjs []*Job
+				for _, p := range ps {
+					sj := *job
+					sj.prefix = p
+					sj.prefixFresh = true
+					sj.parent = job
+					sjs = append(sjs, &sj)
+				}
+				wk.pool.submit(sjs)
+				res.Donated += len(sjs)
+			}
+		}
 		if !ex.next() {
 			break
 		}
@@ -358,37 +378,64 @@ func dedupStrings(a []string) []string {
 	return out
 }
 
-// runPool runs all jobs (and the sub-jobs they split into) on cfg.Workers workers.
+// Pool is the shared job queue.
+type Pool struct {
+	mu      sync.Mutex
+	cond    *sync.Cond
+	queue   []*Job
+	pending int // queued + running
+	idle    int
+	results []*JobResult
+}
+
+func (p *Pool) idleWorkers() int {
+	p.mu.Lock()
+	defer p.mu.Unlock()
+	if len(p.queue) > 0 {
+		return 0
+	}
+	return p.idle
+}
+
+func (p *Pool) submit(jobs []*Job) {
+	p.mu.Lock()
+	p.queue = append(append([]*Job{}, jobs...), p.queue...)
+	p.pending += len(jobs)
+	p.mu.Unlock()
+	p.cond.Broadcast()
+}
+
+// runPool runs all jobs (and the sub-jobs they split into or donate) on
+// cfg.Workers workers.
 func runPool(w *World, cfg *RunConfig, jobs []*Job) ([]*JobResult, error) {
-	var mu sync.Mutex
-	cond := sync.NewCond(&mu)
-	queue := append([]*Job{}, jobs...)
-	pending := len(queue)
-	var results []*JobResult
-	var firstErr error
+	p := &Pool{queue: append([]*Job{}, jobs...), pending: len(jobs)}
+	p.cond = sync.NewCond(&p.mu)
 	var wg sync.WaitGroup
 	for i := 0; i < cfg.Workers; i++ {
 		wk, err := newWorker(i, w, cfg)
 		if err != nil {
 			return nil, err
 		}
+		wk.pool = p
 		wg.Add(1)
 		go func(wk *Worker) {
 			defer wg.Done()
-			defer wk.close()
+			defer func() { wk.close() }()
 			for {
-				mu.Lock()
-				for len(queue) == 0 && pending > 0 {
-					cond.Wait()
+				p.mu.Lock()
+				p.idle++
+				for len(p.queue) == 0 && p.pending > 0 {
+					p.cond.Wait()
 				}
-				if pending == 0 {
-					mu.Unlock()
-					cond.Broadcast()
+				p.idle--
+				if p.pending == 0 {
+					p.mu.Unlock()
+					p.cond.Broadcast()
 					return
 				}
-				job := queue[0]
-				queue = queue[1:]
-				mu.Unlock()
+				job := p.queue[0]
+				p.queue = p.queue[1:]
+				p.mu.Unlock()
 				var res *JobResult
 				func() {
 					defer func() {
@@ -402,23 +449,23 @@ func runPool(w *World, cfg *RunConfig, jobs []*Job) ([]*JobResult, error) {
 					}()
 					res = wk.runJob(job)
 				}()
-				mu.Lock()
-				results = append(results, res)
-				// sub-jobs go to the front: they belong to a job already started
+				p.mu.Lock()
+				p.results = append(p.results, res)
 				if len(res.SubJobs) > 0 {
-					queue = append(append([]*Job{}, res.SubJobs...), queue...)
-					pending += len(res.SubJobs)
+					p.queue = append(append([]*Job{}, res.SubJobs...), p.queue...)
+					p.pending += len(res.SubJobs)
 				}
-				pending--
+				p.pending--
 				if cfg.Verbose {
-					fmt.Fprintf(os.Stderr, "[w%d] %s: %d paths, %d viol sigs, %d sub-jobs, %.2fs (%d pending)\n", wk.id, job, res.Paths, len(res.Viols), len(res.SubJobs), res.Wall.Seconds(), pending)
+					fmt.Fprintf(os.Stderr, "[w%d] %s: %d paths, %d viol sigs, %d sub-jobs, %d donated, %.2fs (%d pending)\n", wk.id, job, res.Paths, len(res.Viols), len(res.SubJobs), res.Donated, res.Wall.Seconds(), p.pending)
 				}
-				mu.Unlock()
-				cond.Broadcast()
+				p.mu.Unlock()
+				p.cond.Broadcast()
 			}
 		}(wk)
 	}
 	wg.Wait()
+	results := p.results
 	sort.SliceStable(results, func(i, j int) bool { return results[i].Job.String() < results[j].Job.String() })
-	return results, firstErr
+	return results, nil
 }
